@@ -2127,6 +2127,51 @@ def clades(F_, x, drop_empty=True):
     return out, roots
 
 
+def decorate_unary(rng, desc):
+    """A single-rooted leaf tree (random_leaf_trees, L = 1) decorated with the legal shapes
+    that repeat a clade: unary chains above internal nodes, above leaves and above the root,
+    and dangling sample-free siblings (which make their parent effectively unary).  The
+    samples stay exactly the leaves 0..n-1, so the pair of trees keeps the same samples."""
+    d = dict(desc)
+    nodes = [[fl, 4 * t, a, b, m_] for fl, t, a, b, m_ in desc["nodes"]]     # room between times
+    edges = [list(e) for e in desc["edges"]]
+    L = desc["L"]
+    for _ in range(rng.randrange(1, 5)):
+        kind = rng.choice(["unary", "unary", "unary", "root", "dangling"])
+        if kind == "unary" and edges:
+            e = rng.choice(edges)
+            par, c = e[2], e[3]
+            below = c
+            for step in range(rng.randrange(1, 4)):          # chain of 1..3 unary nodes
+                t_new = nodes[below][1] + 1
+                if t_new >= nodes[par][1]:
+                    break
+                w = len(nodes)
+                nodes.append([0, t_new, NULL, NULL, ""])
+                edges = [x for x in edges if not (x[2] == par and x[3] == below)]
+                edges.append([0, L, w, below, ""])
+                edges.append([0, L, par, w, ""])
+                below = w
+        elif kind == "root":
+            children = {x[3] for x in edges}
+            roots = [u for u in {x[2] for x in edges} if u not in children]
+            if roots:
+                r_ = roots[0]
+                w = len(nodes)
+                nodes.append([0, nodes[r_][1] + 1, NULL, NULL, ""])
+                edges.append([0, L, w, r_, ""])
+        elif kind == "dangling":
+            internals = sorted({x[2] for x in edges})
+            if internals:
+                p_ = rng.choice(internals)
+                w = len(nodes)
+                nodes.append([0, max(0, nodes[p_][1] - rng.randrange(1, 4)), NULL, NULL, ""])
+                if nodes[w][1] < nodes[p_][1]:
+                    edges.append([0, L, p_, w, ""])
+    d["nodes"], d["edges"] = nodes, edges
+    return d
+
+
 class LdAndDistance(Family):
     name = "ld_distance"
     workers = 8
@@ -2147,9 +2192,20 @@ class LdAndDistance(Family):
                 yield {"what": "kc", "desc": random_leaf_trees(rng, nl, L), "desc2": random_leaf_trees(rng, nl, L),
                        "lam": rng.choice([[0, 1], [1, 1], [1, 2], [1, 4]])}
             else:
-                if rng.random() < 0.5:
+                r_ = rng.random()
+                if r_ < 0.25:
                     nl = rng.randrange(2, 6)
                     yield {"what": "rf", "desc": random_leaf_trees(rng, nl, 1), "desc2": random_leaf_trees(rng, nl, 1)}
+                elif r_ < 0.7:
+                    # single-rooted pairs with unary nodes / dangling sample-free siblings:
+                    # per-node clades repeat, the distance must count distinct bipartitions
+                    nl = rng.randrange(2, 7)
+                    a_, b_ = random_leaf_trees(rng, nl, 1), random_leaf_trees(rng, nl, 1)
+                    if rng.random() < 0.3:
+                        b_ = a_                      # same topology, only the decoration differs
+                    da = decorate_unary(rng, a_)
+                    db = decorate_unary(rng, b_) if rng.random() < 0.6 else b_
+                    yield {"what": "rf", "desc": da, "desc2": db}
                 else:
                     d1 = gen_desc(rng, max_nodes=8, max_L=1, max_sites=0)
                     d2 = dict(d1)
